@@ -223,7 +223,12 @@ func (h *handler) serve(clientCtx context.Context) error {
 			for {
 				select {
 				case args := <-h.unaryRpcChan:
-					h.writeChan <- h.processUnaryRpc(clientCtx, args.info, args.md, args.rpc)
+					resp := h.processUnaryRpc(clientCtx, args.info, args.md, args.rpc)
+					select {
+					case h.writeChan <- resp:
+					case <-h.ctx.Done():
+						return
+					}
 				case <-unaryRpcCtx.Done():
 					return
 				}
@@ -327,6 +332,10 @@ func (h *handler) processUnaryRpc(
 			Trailer: &goatorepo.Trailer{},
 		}
 	}
+
+	// The handler's context ends with the connection, not only with the RPC.
+	stopFollowing := context.AfterFunc(h.ctx, cancel)
+	defer stopFollowing()
 
 	var appErr error
 
